@@ -346,8 +346,8 @@ def rewrite_body(body, mode, stats):
     body = apply_counted(r'vamm_map_bucket\(\s*([\w.]+)\s*\)\s*\.save\(', r'bucket_save__KEY_VAMM_MAP(\1, ', body, stats, 'R11_storage_prim')
     body = apply_counted(r'vamm_map_bucket_read\(\s*([\w.]+)\s*\)\s*\.may_load\(', r'bucket_may_load__KEY_VAMM_MAP(\1, ', body, stats, 'R11_storage_prim')
     # R11: cw_storage_plus Item / Map constants
-    body = apply_counted(r'\b([A-Z][A-Z_]+)\.may_load\(', r'item_may_load__\1(', body, stats, 'R11_storage_prim')
-    body = apply_counted(r'\b([A-Z][A-Z_]+)\.save\(', r'item_save__\1(', body, stats, 'R11_storage_prim')
+    body = apply_counted(r'\b([A-Z][A-Z_]+)\s*\.\s*may_load\(', r'item_may_load__\1(', body, stats, 'R11_storage_prim')
+    body = apply_counted(r'\b([A-Z][A-Z_]+)\s*\.\s*save\(', r'item_save__\1(', body, stats, 'R11_storage_prim')
     # R17: `match <e>.as_str() { "lit" => a, .., _ => d }` -> `if str_is(<e>.as_str(), "lit") { a } else .. else { d }`
     # (this Verus knows of a string-literal pattern only "arm taken => text equal"; the if-chain over a string-equality test with the
     # exact spec `r == (a@ == b@)` gives both directions; same arms, same order, same bodies)
@@ -481,6 +481,167 @@ def rewrite_local_closures(body, stats):
         out = out[:m.start()] + '/* R20: closure ' + name + ' beta-reduced at its calls */' + new_rest
         stats['R20_local_closure'] = stats.get('R20_local_closure', 0) + 1
     return out
+
+
+def _recv_start(text, dot):
+    """Start offset of the postfix expression that ends right before the `.` at text[dot] (identifier / path / field / method-call /
+    index / `?` chain), or None when it is not such a plain chain."""
+    i = dot - 1
+    while True:
+        while i >= 0 and text[i].isspace():
+            i -= 1
+        if i < 0:
+            return None
+        c = text[i]
+        if c == '?':
+            i -= 1
+            continue
+        if c in ')]':
+            op = '(' if c == ')' else '['
+            d, k = 0, i
+            while k >= 0:
+                if text[k] in '"\'':
+                    return None
+                if text[k] == c:
+                    d += 1
+                elif text[k] == op:
+                    d -= 1
+                    if d == 0:
+                        break
+                k -= 1
+            if k < 0:
+                return None
+            i = k - 1
+            while i >= 0 and text[i].isspace():
+                i -= 1
+            if i >= 0 and text[i] == '>' and c == ')':
+                # turbofish `name::<T, U>(..)`
+                d, k = 0, i
+                while k >= 0:
+                    if text[k] == '>' and text[k - 1:k] != '-':
+                        d += 1
+                    elif text[k] == '<':
+                        d -= 1
+                        if d == 0:
+                            break
+                    k -= 1
+                if k < 2 or text[k - 2:k] != '::':
+                    return None
+                i = k - 3
+                while i >= 0 and text[i].isspace():
+                    i -= 1
+            if i < 0 or not (text[i].isalnum() or text[i] == '_'):
+                return None      # a parenthesised expression / tuple / array literal as receiver: not handled
+            c = text[i]
+        if c.isalnum() or c == '_':
+            while i >= 0 and (text[i].isalnum() or text[i] == '_'):
+                i -= 1
+            start = i + 1
+            k = i
+            while k >= 0 and text[k].isspace():
+                k -= 1
+            if k >= 0 and text[k] == '.' and not (k >= 1 and text[k - 1] == '.'):
+                i = k - 1
+                continue
+            if k >= 1 and text[k] == ':' and text[k - 1] == ':':
+                i = k - 2
+                continue
+            return start
+        return None
+
+
+def _last_call_name(recv):
+    """name of the last method / function called in a postfix chain (`a.b(c).d(e)?` -> `d`), or None"""
+    t = recv.rstrip()
+    while t.endswith('?'):
+        t = t[:-1].rstrip()
+    if not t.endswith(')'):
+        return None
+    d, k = 0, len(t) - 1
+    while k >= 0:
+        if t[k] == ')':
+            d += 1
+        elif t[k] == '(':
+            d -= 1
+            if d == 0:
+                break
+        k -= 1
+    mm = re.search(r'(\w+)\s*(?:::\s*<[^()]*>)?\s*$', t[:k])
+    return mm.group(1) if mm else None
+
+
+COMBINATORS = {
+    # name: (closure arity or None for "either", form(s))
+    'ok_or_else': 'option', 'map_err': 'result', 'map': 'either', 'and_then': 'either', 'unwrap_or_else': 'arity', 'or_else': 'arity',
+}
+
+
+def rewrite_combinators(body, stats, prefer='option'):
+    """R23: `recv.map(|x| E)`, `.and_then(|x| E)`, `.ok_or_else(|| E)`, `.map_err(|e| E)`, `.unwrap_or_else(..)`, `.or_else(..)` on an
+    Option / Result become the `match` they abbreviate, e.g. `(match recv { Some(x) => Some(E), None => None })` - a closure's result
+    is opaque to this verifier, a match arm is not. Only when the closure body holds no `?` / `return` (they would leave the closure) and
+    the receiver is a plain postfix chain. `map` / `and_then` exist on both types: `prefer` says which form to emit, the retry loop of
+    tools/runverus.py switches to the other one when the first does not type-check. Returns (text, ambiguous?)."""
+    out = body
+    amb = False
+    if not re.search(r'\.\s*(?:ok_or_else|map_err|map|and_then|unwrap_or_else|or_else)\s*\(\s*(?:move\s+)?\|', strip_comments(out)):
+        return body, False
+    out = strip_comments(out)
+    for _ in range(12):
+        ms = list(code_positions(out, r'\.\s*(ok_or_else|map_err|map|and_then|unwrap_or_else|or_else)\s*\(\s*(?:move\s+)?\|([^|]*)\|\s*'))
+        if not ms:
+            break
+        m = ms[-1]          # innermost / last first: its receiver holds no un-rewritten combinator closure to its right
+        name, params = m.group(1), m.group(2).strip()
+        po = out.index('(', m.start())
+        pc = match_close(out, po, '(', ')')
+        cbody = out[m.end():pc].strip()
+        if cbody.endswith(','):
+            cbody = cbody[:-1].rstrip()
+        if re.search(r'\breturn\b|\?|^->', cbody) or not cbody:
+            return body, False
+        rs = _recv_start(out, m.start())
+        if rs is None:
+            return body, False
+        recv = out[rs:m.start()]
+        if _last_call_name(recv) in ('iter', 'into_iter', 'iter_mut', 'chars', 'bytes', 'keys', 'values', 'range', 'enumerate', 'zip', 'filter', 'rev', 'skip', 'take',
+                                     'filter_map', 'flat_map', 'lines', 'split', 'drain', 'windows', 'chunks'):
+            return body, False      # an iterator adapter chain, not an Option / Result
+        plist = [p_.strip() for p_ in split_top_commas(params)] if params else []
+        pat = None
+        if len(plist) == 1:
+            pat = re.sub(r'\s*:\s*[^,()]+$', '', plist[0]) if not plist[0].startswith('(') else plist[0]
+            pat = re.sub(r'^mut\s+', '', pat)
+        elif len(plist) > 1:
+            return body, False
+        kind = COMBINATORS[name]
+        form = None
+        if kind in ('option', 'result'):
+            form = kind
+        elif kind == 'arity':
+            form = 'option' if pat is None else 'result'
+        else:
+            form = prefer
+            amb = True
+        if name == 'ok_or_else':
+            if pat is not None: return body, False
+            rep = '(match %s { Some(__v) => Ok(__v), None => Err(%s) })' % (recv, cbody)
+        elif name == 'map_err':
+            if pat is None: return body, False
+            rep = '(match %s { Ok(__v) => Ok(__v), Err(%s) => Err(%s) })' % (recv, pat, cbody)
+        elif name == 'map':
+            if pat is None: return body, False
+            rep = ('(match %s { Some(%s) => Some(%s), None => None })' if form == 'option' else '(match %s { Ok(%s) => Ok(%s), Err(__e) => Err(__e) })') % (recv, pat, cbody)
+        elif name == 'and_then':
+            if pat is None: return body, False
+            rep = ('(match %s { Some(%s) => %s, None => None })' if form == 'option' else '(match %s { Ok(%s) => %s, Err(__e) => Err(__e) })') % (recv, pat, cbody)
+        elif name == 'unwrap_or_else':
+            rep = ('(match %s { Some(__v) => __v, None => %s })' % (recv, cbody)) if pat is None else ('(match %s { Ok(__v) => __v, Err(%s) => %s })' % (recv, pat, cbody))
+        else:   # or_else
+            rep = ('(match %s { Some(__v) => Some(__v), None => %s })' % (recv, cbody)) if pat is None else ('(match %s { Ok(__v) => Ok(__v), Err(%s) => %s })' % (recv, pat, cbody))
+        out = out[:rs] + rep + out[pc + 1:]
+        stats['R23_combinator_match'] = stats.get('R23_combinator_match', 0) + 1
+    return out, amb
 
 
 def rewrite_str_match(body, stats):
@@ -709,13 +870,19 @@ def inline_helper(unit, rel, body, helper):
     ret_ty = norm_ws(mret_.group(1)) if mret_ else '()'
     if tname is not None:
         ret_ty = re.sub(r'\bSelf\b', tname, ret_ty)
+    # `return Err(..)` leaves the CALLER once inlined: the same outcome where the caller passes the helper's error on anyway (call followed
+    # by `?`, or the call is the caller's own result) - treated like a `?` in the helper; any other `return` disqualifies the helper
+    ret_err = False
     if re.search(r'\breturn\b', code):
-        raise AssembleError('inline %s: the helper has an early return' % helper)
+        if all(r_ == 'Err' for r_ in re.findall(r'\breturn\b\s*(\w*)', code)) and ret_ty.replace(' ', '').startswith(('StdResult<', 'Result<')):
+            ret_err = True
+        else:
+            raise AssembleError('inline %s: the helper has an early return' % helper)
     if re.search(r'\b(loop|while|for)\b', code):
         raise AssembleError('inline %s: the helper has a loop' % helper)
     if re.search(r'(?<![\w])' + re.escape(fname) + r'\s*\(', code):
         raise AssembleError('inline %s: recursive' % helper)
-    has_q = '?' in code
+    has_q = '?' in code or ret_err
     out, pos, n = [], 0, 0
     hid = helper.replace('.', '_')
     if tname is None:
@@ -813,6 +980,8 @@ class Unit:
         self.inlined = {}      # helper -> where it was taken from
         self.absent = []       # listed functions that no longer exist on this tree
         self.tainted = set()   # functions that inline a function whose contract was dropped: a failed clause there is undecided, not a violation
+        self.comb_result = set()     # R23: functions whose ambiguous combinators (`map`, `and_then`) are emitted in their Result form
+        self.comb_ambiguous = set()  # R23: functions that hold such a combinator
         self.moved = []        # R22: contracted functions found in another file than the one the contract list names
         self.inlined_into = {} # function -> helpers inlined into it (R18)
         self.adapt = {}        # R21: function -> {parameter: 'deref' | 'ref'}
@@ -1241,6 +1410,10 @@ def process_fn(unit, lines, i, arg, rel_tpl):
               if helper_ in unit.drop:
                   unit.tainted.add(newname or name)
           body = rewrite_body(body, 'total' if total else mode, st)
+          # R23: Option / Result combinators with a closure -> the `match` they abbreviate
+          body, amb_ = rewrite_combinators(body, st, 'result' if (newname or name) in unit.comb_result else 'option')
+          if amb_:
+              unit.comb_ambiguous.add(newname or name)
           # a closure's result is opaque to the verifier (no inferred ensures): a proof through one fails for no semantic reason, so a
           # body that still holds one after the declared rewrites is outside the subset (degraded mode), never a violation
           if CLOSURE_RX.search(strip_comments(body)):
@@ -1347,7 +1520,7 @@ def emit_chunk(unit, chunk, rel, src, src_off):
         unit.out.append((ln, '%s:%d' % (rel, base + k)))
 
 
-def assemble(unit_name, repo='/repo', mode='partial', outdir=None, stub=None, inline=None, drop=None, adapt=None):
+def assemble(unit_name, repo='/repo', mode='partial', outdir=None, stub=None, inline=None, drop=None, adapt=None, comb_result=None):
     outdir = outdir or os.path.join(VERIF, 'build')
     os.makedirs(outdir, exist_ok=True)
     unit = Unit(unit_name, repo, mode)
@@ -1355,6 +1528,7 @@ def assemble(unit_name, repo='/repo', mode='partial', outdir=None, stub=None, in
     unit.inline = {k: set(v) for k, v in (inline or {}).items()}
     unit.drop = set(drop or [])
     unit.adapt = {k: dict(v) for k, v in (adapt or {}).items()}
+    unit.comb_result = set(comb_result or [])
     tpl = os.path.join(VERIF, 'specs', unit_name + '.vrs')
     header = ('#![allow(unused_imports, dead_code, unused_variables, unused_mut, unused_assignments, non_snake_case, unreachable_code, unused_parens, non_upper_case_globals)]\n'
               '#![verifier::allow(autoderive_clone_without_spec)]\n'
@@ -1385,7 +1559,7 @@ def assemble(unit_name, repo='/repo', mode='partial', outdir=None, stub=None, in
     h.update(mode.encode())
     meta = {'unit': unit_name, 'mode': mode, 'file': out_rs, 'origins': [o for _, o in unit.out],
             'functions': unit.functions, 'labels': unit.labels, 'theorems': unit.theorems,
-            'stubbed': unit.stubbed, 'skipped_total': unit.skipped, 'inlined': unit.inlined, 'absent': unit.absent, 'tainted': sorted(unit.tainted), 'moved': unit.moved, 'extraction': unit.stats, 'inputs': sorted(set(unit.inputs)), 'hash': h.hexdigest()}
+            'stubbed': unit.stubbed, 'skipped_total': unit.skipped, 'inlined': unit.inlined, 'absent': unit.absent, 'tainted': sorted(unit.tainted), 'moved': unit.moved, 'comb_ambiguous': sorted(unit.comb_ambiguous), 'extraction': unit.stats, 'inputs': sorted(set(unit.inputs)), 'hash': h.hexdigest()}
     with open(os.path.join(outdir, unit_name + suffix + '.map.json'), 'w') as f:
         json.dump(meta, f)
     return meta
